@@ -34,6 +34,10 @@ def decodeIncremental (D : Decoder) (chunks : List (List Byte)) : List Char :=
   let (s, o) := D.runChunks D.init chunks
   o ++ D.flush s
 
+/-- one decoder, state carried across reads, NEVER flushed: `Runner.read_our_stdin` (at end of input the handler closes
+    the command's stdin; bytes of a character the stream ended in the middle of are dropped, not replaced) -/
+def decodeUnflushed (D : Decoder) (chunks : List (List Byte)) : List Char := (D.runChunks D.init chunks).2
+
 /-- a fresh decoder per read (what the code did before the repair) -/
 def decodePerChunk (D : Decoder) (chunks : List (List Byte)) : List Char :=
   (chunks.map D.decodeWhole).flatten
